@@ -26,6 +26,7 @@ type provInfo struct {
 type loopW struct {
 	locals   map[*ssa.Alloc]bool
 	heapFresh map[string]bool // written only at objects allocated inside the loop
+	heapRoots map[string]map[string]Term // written at sub-objects of these (loop-invariant) root objects
 	heapAll  map[string]bool
 	heapRefs map[string]map[string]Term
 }
@@ -231,7 +232,7 @@ func (fr *Frame) run(st0 *State, reach0 Term) []retPoint {
 		if li != nil {
 			lr = runs[b]
 			if lr == nil {
-				lr = &loopRun{li: li, W: loopW{locals: map[*ssa.Alloc]bool{}, heapAll: map[string]bool{}, heapFresh: map[string]bool{}, heapRefs: map[string]map[string]Term{}}}
+				lr = &loopRun{li: li, W: loopW{locals: map[*ssa.Alloc]bool{}, heapAll: map[string]bool{}, heapFresh: map[string]bool{}, heapRoots: map[string]map[string]Term{}, heapRefs: map[string]map[string]Term{}}}
 				if fr.fc != nil {
 					lr.spec = fr.fc.Loops[li.ord]
 				}
@@ -481,6 +482,12 @@ func (fr *Frame) enterLoop(lr *loopRun, stIn *State, reach Term) *State {
 			keys = append(keys, k)
 		}
 	}
+	for k := range lr.W.heapRoots {
+		if !seenKey[k] {
+			seenKey[k] = true
+			keys = append(keys, k)
+		}
+	}
 	sort.Strings(keys)
 	for _, k := range keys {
 		sortK := vc.entrySorts[k]
@@ -489,14 +496,24 @@ func (fr *Frame) enterLoop(lr *loopRun, stIn *State, reach Term) *State {
 			vc.heapSet(st, k, vc.declHeap(k, sortK))
 			continue
 		}
-		if lr.W.heapFresh[k] {
-			// objects allocated by earlier iterations may have been written:
-			// everything that existed before the loop keeps its value
+		if lr.W.heapFresh[k] || len(lr.W.heapRoots[k]) > 0 {
+			// objects allocated by earlier iterations, and sub-objects of the listed
+			// root objects, may have been written: everything else that existed
+			// before the loop keeps its value
 			base := vc.declHeap(k, sortK)
 			name := fmt.Sprintf("r?%d", vc.sc.n)
 			vc.sc.n++
 			rv := Term{name, SInt}
-			body := mkImplies(app(SBool, "<", app(SInt, "refroot", rv), stIn.Alloc), mkEq(mkSelect(base, rv), mkSelect(cur, rv)))
+			conds := []Term{app(SBool, "<", app(SInt, "refroot", rv), stIn.Alloc)}
+			var rootNames []string
+			for rn := range lr.W.heapRoots[k] {
+				rootNames = append(rootNames, rn)
+			}
+			sort.Strings(rootNames)
+			for _, rn := range rootNames {
+				conds = append(conds, mkNot(mkEq(app(SInt, "refroot", rv), app(SInt, "refroot", lr.W.heapRoots[k][rn]))))
+			}
+			body := mkImplies(mkAnd(conds...), mkEq(mkSelect(base, rv), mkSelect(cur, rv)))
 			vc.sc.Assume(Term{fmt.Sprintf("(forall ((%s Int)) (! %s :pattern ((select %s %s))))", name, body.S, base.S, name), SBool}, "loop writes "+k+" only at objects it allocates (and at the listed references)")
 			cur = base
 		}
@@ -569,9 +586,24 @@ func (fr *Frame) backEdge(lr *loopRun, st *State, reach Term) bool {
 					keep = append(keep, r)
 					continue
 				}
-				if vc.freshRefs[r.S] {
+				if pos, isFresh := vc.freshRefs[r.S]; isFresh && pos >= lr.headPos {
+					// allocated inside the loop
 					if !lr.W.heapFresh[k] {
 						lr.W.heapFresh[k] = true
+						grew = true
+					}
+					continue
+				}
+				// a sub-object (element, embedded struct) of a loop-invariant root object,
+				// selected by a loop-variant index
+				if root := rootTerm(r); root.S != r.S && vc.identsAvailable(root, lr.headPos) {
+					m := lr.W.heapRoots[k]
+					if m == nil {
+						m = map[string]Term{}
+						lr.W.heapRoots[k] = m
+					}
+					if _, have := m[root.S]; !have {
+						m[root.S] = root
 						grew = true
 					}
 					continue
@@ -1014,6 +1046,12 @@ func (fr *Frame) binop(x *ssa.BinOp, st *State, reach Term) {
 		default:
 			r = enc.mul(ta, tb)
 		}
+		if fr.wraps(x.Op, x.Type()) {
+			w, _, _ := intInfo(x.Type())
+			r = app(SInt, "mod", r, intLit(new(bigInt).Lsh(bigOne, uint(w))))
+			fr.vals[x] = scalar(x.Type(), vc.sc.Def("t", r))
+			return
+		}
 		r = vc.sc.Def("t", r)
 		fr.overflowCheck(r, x.Type(), reach, x.Op.String())
 		if enc.Mode == ModeBV && fr.fc != nil && fr.fc.NoOverflow {
@@ -1068,7 +1106,10 @@ func (fr *Frame) binop(x *ssa.BinOp, st *State, reach Term) {
 			fr.oblige("shift", reach, enc.le(enc.zeroTerm(tb.Sort), tb, true), "negative shift count")
 		}
 		r := vc.sc.Def("t", enc.shift(x.Op, ta, tb, signed, ysigned))
-		if x.Op == token.SHL {
+		if x.Op == token.SHL && fr.wraps(x.Op, x.Type()) {
+			w, _, _ := intInfo(x.Type())
+			r = vc.sc.Def("t", app(SInt, "mod", r, intLit(new(bigInt).Lsh(bigOne, uint(w)))))
+		} else if x.Op == token.SHL {
 			fr.overflowCheck(r, x.Type(), reach, "<<")
 		}
 		fr.vals[x] = scalar(x.Type(), r)
@@ -1525,3 +1566,79 @@ func calleeShortName(c *ssa.CallCommon) string {
 }
 
 var bigOne = new(bigInt).SetInt64(1)
+
+
+// storeTo writes a flat value to a location of any kind.
+func (fr *Frame) storeTo(lv *LV, v *FV, st *State) {
+	if lv.Kind == LLocal {
+		a := lv.Alloc.(*ssa.Alloc)
+		cur, have := st.Locals[a]
+		if !have {
+			cur = fr.vc.enc.zeroVal(a.Type().(*types.Pointer).Elem())
+		}
+		st.Locals[a] = fr.updatePath(cur, lv.Path, v)
+		return
+	}
+	fr.vc.storeFlat(st, lv, v)
+}
+
+
+// wraps: in int mode, does this operator have declared modular semantics here?
+func (fr *Frame) wraps(op token.Token, t types.Type) bool {
+	if fr.vc.enc.Mode != ModeInt || fr.fc == nil || fr.fc.Wraps == nil {
+		return false
+	}
+	if _, signed, ok := intInfo(t); !ok || signed {
+		return false
+	}
+	switch op {
+	case token.SHL:
+		return fr.fc.Wraps["shl"]
+	case token.ADD:
+		return fr.fc.Wraps["add"]
+	case token.SUB:
+		return fr.fc.Wraps["sub"]
+	case token.MUL:
+		return fr.fc.Wraps["mul"]
+	}
+	return false
+}
+
+
+// rootTerm strips elemref(.., i) and sub_f(..) wrappers from a reference term.
+func rootTerm(t Term) Term {
+	s := t.S
+	for {
+		if !strings.HasPrefix(s, "(elemref ") && !strings.HasPrefix(s, "(sub_") {
+			return Term{s, SInt}
+		}
+		// first argument of the application
+		i := strings.IndexByte(s, ' ')
+		rest := s[i+1:]
+		if strings.HasPrefix(rest, "(") {
+			depth := 0
+			end := -1
+			for j := 0; j < len(rest); j++ {
+				if rest[j] == '(' {
+					depth++
+				} else if rest[j] == ')' {
+					depth--
+					if depth == 0 {
+						end = j
+						break
+					}
+				}
+			}
+			if end < 0 {
+				return t
+			}
+			s = rest[:end+1]
+		} else {
+			j := strings.IndexAny(rest, " )")
+			if j < 0 {
+				return t
+			}
+			s = rest[:j]
+		}
+	}
+}
